@@ -23,19 +23,47 @@ def sig(m):
             "error": bool(m.get("err"))}
 
 
+SEEDS = ["Empty", "Seed1", "Seed2", "Seed3"]
+
+
+def export_pairs(tier, module="SchemaModelMC", cfg="SchemaModelMC.cfg"):
+    """one TLC per seed, in parallel; returns (path of the concatenated pairs file, summed stats, max classes)"""
+    import os
+    depth2 = "FALSE" if tier == "quick" else "TRUE"
+    jobs = [dict(module=module, cfg=cfg, defines={"Seed": sd, "Depth2": depth2}, heap="12g", timeout=6 * 3600, keep=True) for sd in SEEDS]
+    rs = vf.tlc_many(jobs, parallel=4)
+    d = vf.scratch("pairs")
+    out = os.path.join(d, "pairs.ndjson")
+    stats, nclasses = {}, 0
+    try:
+        with open(out, "w") as fo:
+            for sd, r in zip(SEEDS, rs):
+                if not r.ok:
+                    raise vf.Infra("SchemaModel.tla: Exact / DiffSpec(S,S) fails on the model for %s (specification bug):\n%s" % (sd, r.out[-3000:]))
+                st = json.loads(vf.tla_prints(r, "STATS")[0][1])
+                for k, val in st.items():
+                    if isinstance(val, bool):
+                        continue
+                    stats[k] = stats.get(k, 0) + val
+                nclasses = max(nclasses, vf.tla_prints(r, "CLASSES")[0][1])
+                with open(os.path.join(r.dir, "pairs.ndjson")) as fi:
+                    for line in fi:
+                        fo.write(line)
+    finally:
+        for r in rs:
+            vf.rm(r.dir)
+    os.rename(d, out + ".dir") if False else None
+    return out, stats, nclasses
+
+
 def run(tier):
     v = vf.Verdict("C02", tier, "model_checking")
     b = vf.build_harness("core", "schemadiff")
-    defs = {"Wide": "FALSE", "Depth2": "FALSE"} if tier == "quick" else {"Wide": "TRUE", "Depth2": "TRUE"}
-    r = vf.tlc("SchemaModelMC", "SchemaModelMC.cfg", defines=defs, heap="24g", timeout=6 * 3600, keep=True)
+    pairs_path, stats, nclasses = export_pairs(tier)
     try:
-        if not r.ok:
-            raise vf.Infra("SchemaModel.tla: Exact / DiffSpec(S,S) fails on the model (specification bug):\n" + r.out[-3000:])
-        stats = json.loads(vf.tla_prints(r, "STATS")[0][1])
-        nclasses = vf.tla_prints(r, "CLASSES")[0][1]
-        res = vf.run_json([b, r.dir + "/pairs.ndjson"], timeout=3 * 3600)
+        res = vf.run_json([b, pairs_path], timeout=3 * 3600)
     finally:
-        vf.rm(r.dir)
+        vf.rm(__import__('os').path.dirname(pairs_path))
     if res["pairs"] != stats["all"]:
         raise vf.Infra("pair count mismatch TLC %s harness %s" % (stats["all"], res["pairs"]))
     # seed adequacy: every descriptor class the model can produce must be exhibited by the exported pairs
